@@ -16,7 +16,7 @@ import json
 from fractions import Fraction
 
 from dsim import bp, richgen
-from dsim.canon import Canon
+from dsim.canon import Canon, tkey as canon_tkey
 from dsim.runner import Violation, digest_of
 
 ID = "C04"
@@ -926,6 +926,20 @@ def execute(plan, tape):
                                         (where, nm, nm, s2.symbol_type()))
                     except PysmtTypeError:
                         pass
+                    if len(envs) > 1:
+                        # copied into another environment, both keep their own sort (they print alike)
+                        ti = (ei + 1) % len(envs)
+                        tmgr = envs[ti].formula_manager
+                        pair = [mgr.Symbol("bnu_%s" % nm, S), mgr.Symbol("bnb_%s" % nm, builtin)]
+                        if o["client"] % 2:
+                            pair.reverse()
+                        for src_ in pair:
+                            register(ei, src_, o["client"], "sort", step, where)
+                            cp_ = tmgr.normalize(src_)
+                            if canon_tkey(cp_.symbol_type()) != canon_tkey(src_.symbol_type()):
+                                raise Violation("C04:normalize:structure",
+                                                "%s: the copy of %s : %s has type %s" %
+                                                (where, src_, canon_tkey(src_.symbol_type()), canon_tkey(cp_.symbol_type())))
                     ft1 = T.FunctionType(T.BOOL, [S])
                     ft2 = T.FunctionType(T.BOOL, [builtin])
                     if ft1 == ft2:
